@@ -79,7 +79,7 @@ func parseSuper(blob []byte) (magic csMagic, items []superItem, err error) {
 			return 0, nil, errShort
 		}
 		length := int(binary.BigEndian.Uint32(blob[offset+4:]))
-		if offset+length > len(blob) {
+		if length < 8 || offset+length > len(blob) {
 			return 0, nil, errShort
 		}
 		items = append(items, superItem{
